@@ -91,8 +91,9 @@ inductive Shape (g : Cfg) : Prop
       (hX : g.X = serAll g.body ++ g.term.ser) (hU : g.U = g.term.ser)
       (hOt : g.Ot = owedStream g.p.id 5 g.mc g.body) (hrv : g.revs = [rEvent g.content])
       (hs : g.hscript = script g.data g.st)
+      (hfu : alignedBufsize g.b / 32 + wcost g.data.length + 12 ≤ 1000)
   | authorizer (hr : g.p.role = 2) (hX : g.X = []) (hU : g.U = []) (hOt : g.Ot = []) (hrv : g.revs = [])
-      (hs : g.hscript = oscript g.data g.st)
+      (hs : g.hscript = oscript g.data g.st) (hfu : wcost g.data.length + 4 ≤ 1000)
   | filter (hr : g.p.role = 3) (hb : Body g.p.id 5 g.content g.body) (hb2 : Body g.p.id 8 g.content2 g.body2)
       (hf : NoiseFits (alignedBufsize g.b) g.body) (hf2 : NoiseFits (alignedBufsize g.b) g.body2)
       (hp : g.pad.length < 256) (hp2 : g.pad2.length < 256)
@@ -100,16 +101,22 @@ inductive Shape (g : Cfg) : Prop
       (hU : g.U = g.term2.ser)
       (hOt : g.Ot = owedStream g.p.id 5 g.mc g.body ++ owedStream g.p.id 8 g.mc g.body2)
       (hrv : g.revs = [rEvent g.content, rEvent g.content2]) (hs : g.hscript = fscript g.data g.st)
+      (hfu : alignedBufsize g.b / 16 + wcost g.data.length + 24 ≤ 1000)
 
 /-- The hypotheses on a request. -/
 structure OK (g : Cfg) : Prop where
   wf : WellFormedPreamble g.p g.recs
   pairs : ∀ q ∈ g.p.pairs, (NV.enc q).length ≤ alignedBufsize g.b
   noise : NoiseFits (alignedBufsize g.b) g.recs
+  /-- the role; includes a bound for the model fuel: `handlerPoll` gets `1000 + 4·|input|` units per poll -/
   shape : g.Shape
-  /-- model fuel: `handlerPoll` gets `1000 + 4·|input|` units per poll -/
-  hfuel : alignedBufsize g.b / 16 + wcost g.data.length + 24 ≤ 1000
 end Cfg
+
+theorem Cfg.OK.wfuel {g : Cfg} (ok : g.OK) : wcost g.data.length + 4 ≤ 1000 := by
+  cases ok.shape with
+  | responder hr hb hf hp hX2 hX hU hOt hrv hs hfu => omega
+  | authorizer hr hX hU hOt hrv hs hfu => exact hfu
+  | filter hr hb hb2 hf hf2 hp hp2 hX2 hX hU hOt hrv hs hfu => omega
 
 theorem cap24 (g : Cfg) : 24 ≤ g.cap := alignedBufsize_ge g.b
 
@@ -120,33 +127,33 @@ theorem pid_lt {g : Cfg} (ok : g.OK) : 0 < g.p.id ∧ g.p.id < 65536 := by
   | noise r hn t ih => exact ih
   | «begin» pad res body5 hb hp hid hrole hl t => exact hid
 
-theorem termRec5 (g : Cfg) : g.term = termRec ⟨g.p.id, g.p.role, 5, g.mc⟩ g.pad g.res := rfl
-theorem termRec8 (g : Cfg) : g.term2 = termRec ⟨g.p.id, 3, 8, g.mc⟩ g.pad2 g.res2 := rfl
-
 theorem term_wf {g : Cfg} (ok : g.OK) (hp : g.pad.length < 256) : g.term.WF :=
   ⟨(pid_lt ok).2, by simp [Cfg.term], hp⟩
 theorem term2_wf {g : Cfg} (ok : g.OK) (hp : g.pad2.length < 256) : g.term2.WF :=
   ⟨(pid_lt ok).2, by simp [Cfg.term2], hp⟩
 
-/-- the reference on the Stdin stream's wire, and the buffer condition (Responder) -/
-theorem kok {g : Cfg} (ok : g.OK) (hr : g.p.role = 1) (hb : Body g.p.id 5 g.content g.body)
-    (hf : NoiseFits (alignedBufsize g.b) g.body) (hp : g.pad.length < 256) (hX2 : g.X2 = [])
-    (hX : g.X = serAll g.body ++ g.term.ser) : g.K.OK := by
+/-- the reference on the Stdin stream's wire, and the buffer condition; `rest` = the records after
+the Stdin terminator (none for a Responder, the Data stream for a Filter) -/
+theorem kok {g : Cfg} (ok : g.OK) (hb : Body g.p.id 5 g.content g.body)
+    (hf : NoiseFits (alignedBufsize g.b) g.body) (hp : g.pad.length < 256) (rest : List Rec)
+    (hrw : ∀ r ∈ rest, r.WF) (hrf : NoiseFits (alignedBufsize g.b) rest) (hX2 : g.X2 = serAll rest)
+    (hX : g.X = serAll g.body ++ (g.term.ser ++ g.X2)) : g.K.OK := by
   have hid := (pid_lt ok).2
-  have hXs : g.X = serAll (g.body ++ g.term :: []) := by
-    rw [hX, C02.serAll_append, C02.serAll_single]
+  have hXs : g.X = serAll (g.body ++ g.term :: rest) := by
+    rw [hX, hX2, C02.serAll_append, serAll_cons]
   have hcls : rclass ⟨g.p.id, g.p.role, 5, g.mc⟩ g.term = .endStream := by simp [rclass, Cfg.term, RT.isInputStream]
-  have href := refWire_stream ⟨g.p.id, g.p.role, 5, g.mc⟩ (Or.inl rfl) hid hb g.term (term_wf ok hp) hcls []
-    (fun r hr => by cases hr)
-  have hwf : ∀ r ∈ g.body ++ g.term :: [], r.WF := by
+  have href := refWire_stream ⟨g.p.id, g.p.role, 5, g.mc⟩ (Or.inl rfl) hid hb g.term (term_wf ok hp) hcls rest hrw
+  have hwf : ∀ r ∈ g.body ++ g.term :: rest, r.WF := by
     intro r hr
     rcases List.mem_append.1 hr with hr | hr
     · exact body_wf hid hb r hr
-    · rw [List.mem_singleton.1 hr]; exact term_wf ok hp
+    · rcases List.mem_cons.1 hr with rfl | hr
+      · exact term_wf ok hp
+      · exact hrw r hr
   refine ⟨?_, ?_, by have := cap24 g; show 8 ≤ g.cap; omega⟩
   · show refWire ⟨g.p.id, g.p.role, 5, g.mc⟩ g.X = _
     rw [hXs, href]
-    simp only [Cfg.K, hX2, List.append_nil, C02.serAll_single]
+    simp only [Cfg.K, hX2, serAll_cons]
   · intro G hG hv
     have hG' : G <+: g.X := hG
     rw [hXs] at hG'
@@ -155,21 +162,102 @@ theorem kok {g : Cfg} (ok : g.OK) (hr : g.p.role = 1) (hb : Body g.p.id 5 g.cont
     intro r hr hg
     rcases List.mem_append.1 hr with hr | hr
     · exact hf r hr hg
+    · rcases List.mem_cons.1 hr with rfl | hr
+      · exact absurd hg.1 (by simp [Cfg.term, RT.getValues])
+      · exact hrf r hr hg
+
+/-- the same for the Data stream of a Filter, whose wire starts with the Stdin terminator -/
+theorem kok2 {g : Cfg} (ok : g.OK) (hb2 : Body g.p.id 8 g.content2 g.body2)
+    (hf2 : NoiseFits (alignedBufsize g.b) g.body2) (hp : g.pad.length < 256) (hp2 : g.pad2.length < 256)
+    (hX2 : g.X2 = serAll g.body2 ++ g.term2.ser) : g.K2.OK := by
+  have hid := (pid_lt ok).2
+  have hXs : g.term.ser ++ g.X2 = serAll (g.term :: (g.body2 ++ g.term2 :: [])) := by
+    rw [hX2, serAll_cons, C02.serAll_append, C02.serAll_single]
+  have hcls : rclass ⟨g.p.id, 3, 8, g.mc⟩ g.term2 = .endStream := by simp [rclass, Cfg.term2, RT.isInputStream]
+  have hpc : rclass ⟨g.p.id, 3, 8, g.mc⟩ g.term = .noise := by
+    have hl : ¬ Later 3 (some 8) 5 := by decide
+    simp [rclass, Cfg.term, RT.isInputStream, hl]
+  have hpo : owed (some g.p.id) g.mc g.term = [] := by
+    simp [owed, Cfg.term, RT.valid, RT.getValues, RT.beginRequest]
+  have href := refWire_stream' ⟨g.p.id, 3, 8, g.mc⟩ (Or.inr rfl) hid g.term (term_wf ok hp) hpc hpo hb2 g.term2
+    (term2_wf ok hp2) hcls [] (fun r hr => by cases hr)
+  have hwf : ∀ r ∈ g.term :: (g.body2 ++ g.term2 :: []), r.WF := by
+    intro r hr
+    rcases List.mem_cons.1 hr with rfl | hr
+    · exact term_wf ok hp
+    rcases List.mem_append.1 hr with hr | hr
+    · exact body_wf hid hb2 r hr
+    · rw [List.mem_singleton.1 hr]; exact term2_wf ok hp2
+  refine ⟨?_, ?_, by have := cap24 g; show 8 ≤ g.cap; omega⟩
+  · show refWire ⟨g.p.id, 3, 8, g.mc⟩ (g.term.ser ++ g.X2) = _
+    rw [hXs, href]
+    simp only [Cfg.K2, C02.serAll_single]
+  · intro G hG hv
+    have hG' : G <+: g.term.ser ++ g.X2 := hG
+    rw [hXs] at hG'
+    refine stream_fits ⟨g.p.id, 3, 8, g.mc⟩ _ hwf (by rw [href]; intro h; cases h)
+      (by have := cap24 g; show 8 ≤ alignedBufsize g.b; exact Nat.le_trans (by omega) this) ?_ G hG' hv
+    intro r hr hg
+    rcases List.mem_cons.1 hr with rfl | hr
+    · exact absurd hg.1 (by simp [Cfg.term, RT.getValues])
+    rcases List.mem_append.1 hr with hr | hr
+    · exact hf2 r hr hg
     · rw [List.mem_singleton.1 hr] at hg
-      exact absurd hg.1 (by simp [Cfg.term, RT.getValues])
+      exact absurd hg.1 (by simp [Cfg.term2, RT.getValues])
 
-theorem term_idle {g : Cfg} (ok : g.OK) : IdleNoise g.term :=
-  ⟨⟨(pid_lt ok).2, by simp [Cfg.term], ok.padlen⟩, fun h => by simp [Cfg.term, RT.beginRequest] at h⟩
+/-- the facts about the two streams of a Filter request -/
+theorem kokF {g : Cfg} (ok : g.OK) (hr : g.p.role = 3) (hb : Body g.p.id 5 g.content g.body)
+    (hb2 : Body g.p.id 8 g.content2 g.body2)
+    (hf : NoiseFits (alignedBufsize g.b) g.body) (hf2 : NoiseFits (alignedBufsize g.b) g.body2)
+    (hp : g.pad.length < 256) (hp2 : g.pad2.length < 256)
+    (hX2 : g.X2 = serAll g.body2 ++ g.term2.ser) (hX : g.X = serAll g.body ++ (g.term.ser ++ g.X2)) :
+    g.K.OK ∧ g.K2.OK ∧ Follows g.K g.K2 := by
+  have hid := (pid_lt ok).2
+  refine ⟨kok ok hb hf hp (g.body2 ++ [g.term2]) ?_ ?_ (by rw [hX2, C02.serAll_append, C02.serAll_single]) hX,
+    kok2 ok hb2 hf2 hp hp2 hX2, ?_⟩
+  · intro r hr
+    rcases List.mem_append.1 hr with hr | hr
+    · exact body_wf hid hb2 r hr
+    · rw [List.mem_singleton.1 hr]; exact term2_wf ok hp2
+  · intro r hr hg
+    rcases List.mem_append.1 hr with hr | hr
+    · exact hf2 r hr hg
+    · rw [List.mem_singleton.1 hr] at hg
+      exact absurd hg.1 (by simp [Cfg.term2, RT.getValues])
+  · exact ⟨by simp [Cfg.K, hr], by simp [Cfg.K, Cfg.K2], rfl, rfl, rfl⟩
 
-theorem wf' {g : Cfg} (ok : g.OK) : WellFormedPreamble g.p (g.term :: g.recs) :=
-  .noise g.term (term_idle ok) ok.wf
+theorem term_idle {g : Cfg} (ok : g.OK) (hp : g.pad.length < 256) : IdleNoise g.term :=
+  ⟨term_wf ok hp, fun h => by simp [Cfg.term, RT.beginRequest] at h⟩
+theorem term2_idle {g : Cfg} (ok : g.OK) (hp : g.pad2.length < 256) : IdleNoise g.term2 :=
+  ⟨term2_wf ok hp, fun h => by simp [Cfg.term2, RT.beginRequest] at h⟩
 
-theorem noise' {g : Cfg} (ok : g.OK) : NoiseFits (alignedBufsize g.b) (g.term :: g.recs) := by
+/-- what the request leaves unread: nothing, or one empty stream record -/
+def URec (e : Rec) : Prop := IdleNoise e ∧ e.content = [] ∧ (e.rtype = 5 ∨ e.rtype = 8)
+
+theorem U_shape {g : Cfg} (ok : g.OK) : ∃ us : List Rec, g.U = serAll us ∧ ∀ e ∈ us, URec e := by
+  cases ok.shape with
+  | responder hr hb hf hp hX2 hX hU hOt hrv hs hfu =>
+    exact ⟨[g.term], by rw [hU, C02.serAll_single], fun e he => by
+      rw [List.mem_singleton.1 he]; exact ⟨term_idle ok hp, rfl, Or.inl rfl⟩⟩
+  | authorizer hr hX hU hOt hrv hs hfu => exact ⟨[], by rw [hU]; rfl, fun e he => by cases he⟩
+  | filter hr hb hb2 hf hf2 hp hp2 hX2 hX hU hOt hrv hs hfu =>
+    exact ⟨[g.term2], by rw [hU, C02.serAll_single], fun e he => by
+      rw [List.mem_singleton.1 he]; exact ⟨term2_idle ok hp2, rfl, Or.inr rfl⟩⟩
+
+theorem wf_us {p : Preamble} {recs : List Rec} (h : WellFormedPreamble p recs) :
+    ∀ us : List Rec, (∀ e ∈ us, URec e) → WellFormedPreamble p (us ++ recs)
+  | [], _ => h
+  | e :: us, hu => .noise e (hu e List.mem_cons_self).1 (wf_us h us (fun x hx => hu x (List.mem_cons_of_mem _ hx)))
+
+theorem noise_us {M : Nat} {recs : List Rec} (h : NoiseFits M recs) (us : List Rec) (hu : ∀ e ∈ us, URec e) :
+    NoiseFits M (us ++ recs) := by
   intro r hr hg d hd hl
-  rcases List.mem_cons.1 hr with rfl | hr
+  rcases List.mem_append.1 hr with hr | hr
   · obtain ⟨h1, _⟩ := hg
-    simp [Cfg.term, RT.getValues] at h1
-  · exact ok.noise r hr hg d hd hl
+    rcases (hu r hr).2.2 with h5 | h8
+    · rw [h5] at h1; simp [RT.getValues] at h1
+    · rw [h8] at h1; simp [RT.getValues] at h1
+  · exact h r hr hg d hd hl
 
 theorem noStuck_of {p : Preamble} {recs : List Rec} (h : WellFormedPreamble p recs) (extra : Bytes) (b mc : Nat)
     (hpairs : ∀ q ∈ p.pairs, (NV.enc q).length ≤ alignedBufsize b)
@@ -188,29 +276,41 @@ theorem noStuck_of {p : Preamble} {recs : List Rec} (h : WellFormedPreamble p re
 theorem ns {g : Cfg} (ok : g.OK) : NoStuckW g.cap g.mc g.W := noStuck_of ok.wf g.X g.b g.mc ok.pairs ok.noise
 
 theorem ns' {g : Cfg} (ok : g.OK) : NoStuckW g.cap g.mc g.W' := by
-  have := noStuck_of (wf' ok) [] g.b g.mc ok.pairs (noise' ok)
-  simpa [Cfg.W', Cfg.cap] using this
+  obtain ⟨us, hU, hu⟩ := U_shape ok
+  have := noStuck_of (wf_us ok.wf us hu) [] g.b g.mc ok.pairs (noise_us ok.noise us hu)
+  simpa [Cfg.W', Cfg.cap, hU, C02.serAll_append] using this
 
-/-- the request parser's run over the terminating record -/
-theorem run_term {g : Cfg} (ok : g.OK) : run .header g.term.ser g.mc = ⟨[], .header, [], none⟩ := by
-  have h := header_noise g.term (term_idle ok) [] g.mc
-    (Or.inr (fun h => by simp [EmptyGetValues, Cfg.term, RT.getValues] at h))
-  rw [List.append_nil, resting_header g.mc] at h
-  rw [h]
-  have : owed none g.mc g.term = [] := by
-    simp [owed, Cfg.term, RT.valid, RT.getValues, RT.beginRequest]
-  rw [this]; rfl
+/-- the request parser's run over what the request left unread -/
+theorem run_U {g : Cfg} (ok : g.OK) : run .header g.U g.mc = ⟨[], .header, [], none⟩ := by
+  obtain ⟨us, hU, hu⟩ := U_shape ok
+  rw [hU]
+  clear hU
+  induction us with
+  | nil => exact resting_header g.mc
+  | cons e us ih =>
+    have hE := hu e List.mem_cons_self
+    have h := header_noise e hE.1 (serAll us) g.mc
+      (Or.inr (fun h => by
+        rcases hE.2.2 with h5 | h8
+        · simp [EmptyGetValues, h5, RT.getValues] at h
+        · simp [EmptyGetValues, h8, RT.getValues] at h))
+    rw [serAll_cons, h, ih (fun x hx => hu x (List.mem_cons_of_mem _ hx))]
+    have : owed none g.mc e = [] := by
+      rcases hE.2.2 with h5 | h8
+      · simp [owed, h5, RT.valid, RT.getValues, RT.beginRequest]
+      · simp [owed, h8, RT.valid, RT.getValues, RT.beginRequest]
+    rw [this]; rfl
 
 /-- … and over a prefix of it: never final, no output -/
-theorem run_term_prefix {g : Cfg} (ok : g.OK) {F : Bytes} (hF : F <+: g.term.ser) :
+theorem run_U_prefix {g : Cfg} (ok : g.OK) {F : Bytes} (hF : F <+: g.U) :
     (run .header F g.mc).st.isFinal = false ∧ (run .header F g.mc).out = [] := by
   obtain ⟨t, ht⟩ := hF
   by_cases hne : t = []
   · subst hne
     rw [List.append_nil] at ht
-    rw [ht, run_term ok]; exact ⟨rfl, rfl⟩
+    rw [ht, run_U ok]; exact ⟨rfl, rfl⟩
   · have hs := Req.run_split (st := .header) trivial F t g.mc hne
-    rw [ht, run_term ok] at hs
+    rw [ht, run_U ok] at hs
     have hout := congrArg Out.out hs
     simp only at hout
     refine ⟨?_, (List.append_eq_nil_iff.1 hout.symm).1⟩
@@ -240,7 +340,7 @@ structure CEnd (g : Cfg) (r : AReq) (input : Bytes) : Prop where
   pay : r.sp.pay = 0
   pad : r.sp.pad = 0
   out : r.sp.output = []
-  wire : r.sp.raw ++ input = g.term.ser
+  wire : r.sp.raw ++ input = g.U
   req : r.sp.request = g.p.request
   cap : r.sp.cap = g.cap
   mc : r.sp.maxConns = g.mc
@@ -250,7 +350,7 @@ structure CEnd (g : Cfg) (r : AReq) (input : Bytes) : Prop where
 structure CEndW (g : Cfg) (r : AReq) (input : Bytes) : Prop where
   pay : r.sp.pay = 0
   pad : r.sp.pad = 0
-  wire : r.sp.raw ++ input = g.term.ser
+  wire : r.sp.raw ++ input = g.U
   req : r.sp.request = g.p.request
   cap : r.sp.cap = g.cap
   mc : r.sp.maxConns = g.mc
@@ -260,32 +360,32 @@ inductive Stage (g : Cfg) : Conn → Prop
   | start {c : Conn} {raw : Bytes} (hph : c.phase = .parseReq ⟨g.cap, raw, .header, g.mc⟩ .start)
       (hwire : raw ++ c.env.tr.input = g.W) (hraw : raw.length ≤ g.cap) (hlog : c.env.tr.wlog = g.L0)
       (hb : Ben c.env.tr) (hstop : c.stop = false)
-      (hsc : c.scripts = (script g.data g.st, true) :: g.more) (hm : c.env.mutex = none)
+      (hsc : c.scripts = (g.hscript, true) :: g.more) (hm : c.env.mutex = none)
       (hev : hsCount c.env.tr.events = g.hs0) : Stage g c
   | parse {c : Conn} {F : Bytes} (hst : PSt g.cap g.mc g.W g.L0 [] c F)
-      (hsc : c.scripts = (script g.data g.st, true) :: g.more) (hm : c.env.mutex = none)
+      (hsc : c.scripts = (g.hscript, true) :: g.more) (hm : c.env.mutex = none)
       (hev : hsCount c.env.tr.events = g.hs0) : Stage g c
   | hread {c : Conn} {r : AReq} {h : HState} (hph : c.phase = .handler r h)
-      (hr : HRead g.K g.data g.st g.L1 r h c.env) (hb : Ben c.env.tr) (hstop : c.stop = false)
+      (hr : g.Rd r h c.env) (hb : Ben c.env.tr) (hstop : c.stop = false)
       (hev : Ev1 g c.env.tr) (hsc : c.scripts = g.more) : Stage g c
   | hwrite {c : Conn} {r : AReq} {h : HState} {O1 : Bytes} (hph : c.phase = .handler r h)
-      (hw : HWrite g.K g.data g.st g.L1 O1 r h c.env) (hb : Ben c.env.tr) (hstop : c.stop = false)
+      (hw : HWrite g.Wc O1 r h c.env) (hb : Ben c.env.tr) (hstop : c.stop = false)
       (hev : Ev1 g c.env.tr) (hsc : c.scripts = g.more) : Stage g c
   | closeW {c : Conn} {r : AReq} {rest O1 O2 : Bytes}
       (hph : c.phase = .closing r (.writeOut rest g.epi) g.st 0) (hO : O1 ++ O2 = g.Ot)
       (hce : CEndW g r c.env.tr.input) (hm : c.env.mutex = none)
       (hlog : c.env.tr.wlog ++ rest ++ g.epi = g.L3 O1 O2)
       (hb : Ben c.env.tr) (hstop : c.stop = false) (hev : Ev1 g c.env.tr)
-      (hre : rEvent g.content ∈ c.env.tr.events) (hsc : c.scripts = g.more) : Stage g c
+      (hre : ∀ s ∈ g.revs, s ∈ c.env.tr.events) (hsc : c.scripts = g.more) : Stage g c
   | close {c : Conn} {r : AReq} {rest O1 O2 : Bytes} (hph : c.phase = .closing r (.writeEnd rest) g.st 0)
       (hO : O1 ++ O2 = g.Ot)
       (hce : CEnd g r c.env.tr.input) (hm : c.env.mutex = none) (hlog : c.env.tr.wlog ++ rest = g.L3 O1 O2)
       (hb : Ben c.env.tr) (hstop : c.stop = false) (hev : Ev1 g c.env.tr)
-      (hre : rEvent g.content ∈ c.env.tr.events) (hsc : c.scripts = g.more) : Stage g c
+      (hre : ∀ s ∈ g.revs, s ∈ c.env.tr.events) (hsc : c.scripts = g.more) : Stage g c
   | idle {c : Conn} {F O1 O2 : Bytes} (hO : O1 ++ O2 = g.Ot)
       (hst : PSt g.cap g.mc g.W' (g.L3 O1 O2) (serAll g.recs) c F)
-      (hfin : F ++ c.env.tr.input = g.term.ser) (hkeep : g.p.flags.toNat % 2 = 1)
-      (hev : Ev1 g c.env.tr) (hre : rEvent g.content ∈ c.env.tr.events) (hsc : c.scripts = g.more)
+      (hfin : F ++ c.env.tr.input = g.U) (hkeep : g.p.flags.toNat % 2 = 1)
+      (hev : Ev1 g c.env.tr) (hre : ∀ s ∈ g.revs, s ∈ c.env.tr.events) (hsc : c.scripts = g.more)
       (hmx : c.env.mutex = none) : Stage g c
 
 /-- the connection finished after answering the request completely -/
@@ -293,7 +393,7 @@ structure Fin (g : Cfg) (O1 O2 : Bytes) (c' : Conn) : Prop where
   ph : c'.phase = .finished
   log : c'.env.tr.wlog = g.L3 O1 O2
   ev : Ev1 g c'.env.tr
-  re : rEvent g.content ∈ c'.env.tr.events
+  re : ∀ s ∈ g.revs, s ∈ c'.env.tr.events
   sc : c'.scripts = g.more
   why : g.p.flags.toNat % 2 = 0 ∨ (g.p.flags.toNat % 2 = 1 ∧ c'.env.tr.endMode = .eof)
 
@@ -303,7 +403,7 @@ structure Parked (g : Cfg) (O1 O2 : Bytes) (c' : Conn) : Prop where
   inp : c'.env.tr.input = []
   log : c'.env.tr.wlog = g.L3 O1 O2
   ev : Ev1 g c'.env.tr
-  re : rEvent g.content ∈ c'.env.tr.events
+  re : ∀ s ∈ g.revs, s ∈ c'.env.tr.events
   sc : c'.scripts = g.more
   stop : c'.stop = false
   mtx : c'.env.mutex = none
@@ -390,41 +490,41 @@ theorem wbit_le (c : Conn) : wbit c ≤ 1 := by
 
 theorem idle_poll {g : Cfg} (ok : g.OK) {c : Conn} {F O1 O2 : Bytes} (hO : O1 ++ O2 = g.Ot)
     (hst : PSt g.cap g.mc g.W' (g.L3 O1 O2) (serAll g.recs) c F)
-    (hkeep : g.p.flags.toNat % 2 = 1) (hev : Ev1 g c.env.tr) (hre : rEvent g.content ∈ c.env.tr.events)
+    (hkeep : g.p.flags.toNat % 2 = 1) (hev : Ev1 g c.env.tr) (hre : ∀ s ∈ g.revs, s ∈ c.env.tr.events)
     (hsc : c.scripts = g.more) (hmx : c.env.mutex = none) :
     Res g (2 * c.env.tr.input.length + 4) c := by
   have hfin_of : ∀ (c2 : Conn) (F2 : Bytes), PSt g.cap g.mc g.W' (g.L3 O1 O2) (serAll g.recs) c2 F2 →
-      F2 ++ c2.env.tr.input = g.term.ser := by
+      F2 ++ c2.env.tr.input = g.U := by
     intro c2 F2 h2
     have := h2.wire
-    rw [Cfg.W', serAll_cons] at this
+    rw [Cfg.W'] at this
     exact List.append_cancel_right this
   obtain ⟨n, c1, F1, hn, hs, hfr, hout⟩ := parse_loop (cap24 g) (ns' ok) _ c F hst (Nat.le_refl _)
   have hnb : n ≤ 2 * c.env.tr.input.length + 2 := by have := wbit_le c; omega
   rcases hout with ⟨c2, h1, h2, h3, h4, h5⟩ | ⟨rest, t', _, hf, hw, _⟩ | ⟨hin, hnf, hph, hst1⟩
   · refine ⟨c2, .pending, ⟨n, c1, by omega, hs, h1⟩, hfr.link.trans h3.link, ?_⟩
     have hts := hfr.ts.trans h3.ts
-    exact .pend (.idle hO h2 (hfin_of _ _ h2) hkeep (hev.step hts) (hts.mem_events hre)
+    exact .pend (.idle hO h2 (hfin_of _ _ h2) hkeep (hev.step hts) ((fun s hs => hts.mem_events (hre s hs)))
       (h3.scripts.trans (hfr.scripts.trans hsc)) (h3.mutex.trans (hfr.mutex.trans hmx))) h4
       (by have := hfr.ts.ans_le; omega)
   · exfalso
-    rw [Cfg.W', serAll_cons] at hw
-    have hpre : F1 <+: g.term.ser := ⟨c1.env.tr.input, List.append_cancel_right hw⟩
-    rw [(run_term_prefix ok hpre).1] at hf
+    rw [Cfg.W'] at hw
+    have hpre : F1 <+: g.U := ⟨c1.env.tr.input, List.append_cancel_right hw⟩
+    rw [(run_U_prefix ok hpre).1] at hf
     cases hf
-  · have hF1 : F1 = g.term.ser := by
+  · have hF1 : F1 = g.U := by
       have := hfin_of _ _ hst1
       rwa [hin, List.append_nil] at this
     subst hF1
-    have htrack : track g.cap g.mc g.term.ser = ⟨g.cap, [], .header, g.mc⟩ := by
-      simp only [track, run_term ok]
+    have htrack : track g.cap g.mc g.U = ⟨g.cap, [], .header, g.mc⟩ := by
+      simp only [track, run_U ok]
     rw [htrack] at hph
     have hstep := step_reading c1 _ hph hst1.stop
     have hfree : (⟨g.cap, [], .header, g.mc⟩ : Req.Parser).free = g.cap := by simp [Req.Parser.free]
     rw [hfree] at hstep
     have hlog1 : c1.env.tr.wlog = g.L3 O1 O2 := by
       rcases hst1.ph with ⟨_, _, h⟩ | ⟨rest, hp', _⟩
-      · rw [h, run_term ok]; simp
+      · rw [h, run_U ok]; simp
       · rw [hph, htrack] at hp'; cases hp'
     have hts1 := hfr.ts
     rcases hrd : c1.env.tr.read g.cap with ⟨t, res⟩
@@ -436,17 +536,17 @@ theorem idle_poll {g : Cfg} (ok : g.OK) {c : Conn} {F O1 O2 : Bytes} (hO : O1 ++
     cases res with
     | pending =>
       obtain ⟨hi, hw⟩ := read_pending hst1.ben hrd
-      have hst2 : PSt g.cap g.mc g.W' (g.L3 O1 O2) (serAll g.recs) { c1 with env := { c1.env with tr := t } } g.term.ser :=
+      have hst2 : PSt g.cap g.mc g.W' (g.L3 O1 O2) (serAll g.recs) { c1 with env := { c1.env with tr := t } } g.U :=
         ⟨by simpa [hi] using hst1.wire, hst1.stop, hst1.ben.step hts, hst1.rem,
-          Or.inl ⟨by rw [htrack]; exact hph, hnf, by show t.wlog = _; rw [hwl, hlog1, run_term ok]; simp⟩⟩
+          Or.inl ⟨by rw [htrack]; exact hph, hnf, by show t.wlog = _; rw [hwl, hlog1, run_U ok]; simp⟩⟩
       have hstage : Stage g { c1 with env := { c1.env with tr := t } } :=
-        .idle hO hst2 (hfin_of _ _ hst2) hkeep (hev.step (hts1.trans hts)) ((hts1.trans hts).mem_events hre)
+        .idle hO hst2 (hfin_of _ _ hst2) hkeep (hev.step (hts1.trans hts)) ((fun s hs => (hts1.trans hts).mem_events (hre s hs)))
           (hfr.scripts.trans hsc) (hfr.mutex.trans hmx)
       refine ⟨_, .pending, ⟨n, c1, by omega, hs, hstep⟩, hlink, ?_⟩
       rcases hw with hw | hw
       · exact .pend hstage hw.1 (by show ans t < ans c.env.tr; have := hts1.ans_le; omega)
       · refine .park hstage hO ⟨hph, by show t.input = []; rw [hi, hin], by show t.wlog = _; rw [hwl, hlog1],
-          hev.step (hts1.trans hts), (hts1.trans hts).mem_events hre, hfr.scripts.trans hsc, hst1.stop,
+          hev.step (hts1.trans hts), (fun s hs => (hts1.trans hts).mem_events (hre s hs)), hfr.scripts.trans hsc, hst1.stop,
           hfr.mutex.trans hmx, hst1.ben.step hts, hkeep, ?_⟩
         show t.endMode = .pend
         rw [hts.em]; exact hw.2.1
@@ -465,7 +565,7 @@ theorem idle_poll {g : Cfg} (ok : g.OK) {c : Conn} {F O1 O2 : Bytes} (hO : O1 ++
           · exact hz.2
         refine ⟨{ c1 with phase := .finished, env := { c1.env with tr := t } }, .finished,
           ⟨n, c1, by omega, hs, hstep⟩, hfr.link.trans ⟨hts.w, rfl, rfl⟩, .fin hO ⟨rfl, ?_, hev.step (hts1.trans hts),
-            (hts1.trans hts).mem_events hre, hfr.scripts.trans hsc, Or.inr ⟨hkeep, ?_⟩⟩⟩
+            (fun s hs => (hts1.trans hts).mem_events (hre s hs)), hfr.scripts.trans hsc, Or.inr ⟨hkeep, ?_⟩⟩⟩
         · show t.wlog = _; rw [hwl, hlog1]
         · show t.endMode = .eof; rw [hts.em]; exact heof
 
@@ -516,7 +616,7 @@ theorem close_core {g : Cfg} (ok : g.OK) {c : Conn} {r r2 : AReq} {cs : CloseSt}
     (hts1 : TStep c.env.tr t1) (hin1 : t1.input = c.env.tr.input)
     (hce : CEnd g r2 c.env.tr.input) (hm : c.env.mutex = none) (hlog : t1.wlog ++ rest = g.L3 O1 O2)
     (hb : Ben c.env.tr) (hstop : c.stop = false) (hev : Ev1 g c.env.tr)
-    (hre : rEvent g.content ∈ c.env.tr.events) (hsc : c.scripts = g.more) :
+    (hre : ∀ s ∈ g.revs, s ∈ c.env.tr.events) (hsc : c.scripts = g.more) :
     Res g (2 * c.env.tr.input.length + 8) c := by
   have hstep := C07.closing_step c r cs g.st 0 hph
   rw [heq] at hstep
@@ -530,7 +630,7 @@ theorem close_core {g : Cfg} (ok : g.OK) {c : Conn} {r r2 : AReq} {cs : CloseSt}
     refine ⟨mkC c (.closing r2 (.writeEnd rest') g.st 0) t', .pending, (Halts.now hstep').mono (by omega),
       mkC_link c _ hts, .pend ?_ hwk (by show ans t' < ans c.env.tr; have := hts1.ans_le; omega)⟩
     exact .close (r := r2) (rest := rest') rfl hO (by show CEnd g r2 t'.input; rw [hinp]; exact hce) hm
-      (by show t'.wlog ++ rest' = _; rw [hwl, hlog]) (hb.step hts) hstop (hev.step hts) (hts.mem_events hre) hsc
+      (by show t'.wlog ++ rest' = _; rw [hwl, hlog]) (hb.step hts) hstop (hev.step hts) ((fun s hs => hts.mem_events (hre s hs))) hsc
   · have hts := hts1.trans hts0
     have hinp := hinp0.trans hin1
     rw [hfe, hce.req, hce.into] at hstep
@@ -540,9 +640,9 @@ theorem close_core {g : Cfg} (ok : g.OK) {c : Conn} {r r2 : AReq} {cs : CloseSt}
       simp only [hreq, if_true] at hstep
       have hstep' : stepConn c = .next (mkC c (.parseReq ⟨g.cap, r2.sp.raw, .header, g.mc⟩ .start) t') := hstep
       -- the connection is reused: `parse_request` starts on what is left in the buffer
-      have hrawin : r2.sp.raw ++ t'.input = g.term.ser := by rw [hinp]; exact hce.wire
+      have hrawin : r2.sp.raw ++ t'.input = g.U := by rw [hinp]; exact hce.wire
       have hpre : r2.sp.raw <+: g.W' := by
-        rw [Cfg.W', serAll_cons, ← hrawin, List.append_assoc]
+        rw [Cfg.W', ← hrawin, List.append_assoc]
         exact List.prefix_append _ _
       have hstart := start_track (cap24 g) hce.rawlen (ns' ok _ hpre)
       have hstep2 := step_start (mkC c (.parseReq ⟨g.cap, r2.sp.raw, .header, g.mc⟩ .start) t') _ rfl hstop
@@ -558,9 +658,9 @@ theorem close_core {g : Cfg} (ok : g.OK) {c : Conn} {r r2 : AReq} {cs : CloseSt}
           (mkC c (.parseReq (track g.cap g.mc r2.sp.raw)
             (.writing (run .header r2.sp.raw g.mc).out (run .header r2.sp.raw g.mc).st.isFinal)) t') r2.sp.raw :=
         ⟨by show r2.sp.raw ++ t'.input ++ serAll g.recs = g.W'
-            rw [hrawin, Cfg.W', serAll_cons],
+            rw [hrawin, Cfg.W'],
           hstop, hb.step hts, hremle, Or.inr ⟨_, rfl, by show t'.wlog ++ _ = _; rw [hlog']⟩⟩
-      have hidle := idle_poll ok hO hst hk (hev.step hts) (hts.mem_events hre) hsc hm
+      have hidle := idle_poll ok hO hst hk (hev.step hts) ((fun s hs => hts.mem_events (hre s hs))) hsc hm
       have := Res.of_steps (Steps.step hstep' (Steps.one hstep2')) (mkC_link c _ hts) hidle
       refine this.mono ?_
       have := congrArg List.length hinp
@@ -570,7 +670,7 @@ theorem close_core {g : Cfg} (ok : g.OK) {c : Conn} {r r2 : AReq} {cs : CloseSt}
       simp only [hreq, Bool.false_eq_true, if_false] at hstep
       have hstep' : stepConn c = .halt (mkC c .finished t') .finished := hstep
       exact ⟨mkC c .finished t', .finished, (Halts.now hstep').mono (by omega), mkC_link c _ hts,
-        .fin hO ⟨rfl, hlog', hev.step hts, hts.mem_events hre, hsc, Or.inl (by omega)⟩⟩
+        .fin hO ⟨rfl, hlog', hev.step hts, (fun s hs => hts.mem_events (hre s hs)), hsc, Or.inl (by omega)⟩⟩
 
 /-- A poll of `close` that is (back) in the `write_all` of the replies still queued in the parser. -/
 theorem close_out {g : Cfg} (ok : g.OK) {c : Conn} {r r2 : AReq} {cs : CloseSt} {rest O1 O2 : Bytes}
@@ -580,7 +680,7 @@ theorem close_out {g : Cfg} (ok : g.OK) {c : Conn} {r r2 : AReq} {cs : CloseSt} 
     (hce : CEndW g r2 c.env.tr.input) (hm : c.env.mutex = none)
     (hlog : c.env.tr.wlog ++ rest ++ g.epi = g.L3 O1 O2)
     (hb : Ben c.env.tr) (hstop : c.stop = false) (hev : Ev1 g c.env.tr)
-    (hre : rEvent g.content ∈ c.env.tr.events) (hsc : c.scripts = g.more) :
+    (hre : ∀ s ∈ g.revs, s ∈ c.env.tr.events) (hsc : c.scripts = g.more) :
     Res g (2 * c.env.tr.input.length + 8) c := by
   rcases hw : writeAllLoop (rest.length + 1) rest c.env.tr with ⟨rest', t', res⟩
   obtain ⟨hts, hinp, ⟨dn, hd, hl⟩, hres⟩ := writeAllLoop_ben _ _ _ hb (Nat.lt_succ_self _) hw
@@ -600,59 +700,97 @@ theorem close_out {g : Cfg} (ok : g.OK) {c : Conn} {r r2 : AReq} {cs : CloseSt} 
     refine ⟨_, .pending, (Halts.now hstep').mono (by omega), mkC_link c _ hts, .pend ?_ hwk hans⟩
     exact .closeW (r := r2) (rest := rest') rfl hO (by show CEndW g r2 t'.input; rw [hinp]; exact hce) hm
       (by show t'.wlog ++ rest' ++ g.epi = _; rw [hl, ← hlog, hd]; simp only [List.append_assoc])
-      (hb.step hts) hstop (hev.step hts) (hts.mem_events hre) hsc
+      (hb.step hts) hstop (hev.step hts) ((fun s hs => hts.mem_events (hre s hs))) hsc
 
 /-- the request `close` works on once it stands at the record boundary -/
 def closeReq (r : AReq) : AReq :=
-  { sp := r.sp.switchTo none, lock := .none, writeable := r.writeable }
+  { sp := spIgnore r.sp, lock := .none, writeable := r.writeable }
 
-/-- `close(st)` started right after the handler returned at the end mark: `writeable()` is ready at
-once, the parser already stands at a record boundary — what remains is the `write_all` of the
-replies still queued and then of the epilogue. -/
-theorem close_start_eq {g : Cfg} {r : AReq} {t : Transport} (he : REnd g.K r t.input) :
+theorem spIgnore_pay (sp : Str.Parser) : (spIgnore sp).pay = sp.pay := by unfold spIgnore; split <;> rfl
+theorem spIgnore_pad (sp : Str.Parser) : (spIgnore sp).pad = sp.pad := by unfold spIgnore; split <;> rfl
+theorem spIgnore_raw (sp : Str.Parser) : (spIgnore sp).raw = sp.raw := by unfold spIgnore; split <;> rfl
+theorem spIgnore_cap (sp : Str.Parser) : (spIgnore sp).cap = sp.cap := by unfold spIgnore; split <;> rfl
+theorem spIgnore_mc (sp : Str.Parser) : (spIgnore sp).maxConns = sp.maxConns := by unfold spIgnore; split <;> rfl
+theorem spIgnore_output (sp : Str.Parser) : (spIgnore sp).output = sp.output := by unfold spIgnore; split <;> rfl
+
+/-- `close(st)` started right after the handler returned at the end of its input: `writeable()` is
+ready at once, the parser already stands at a record boundary — what remains is the `write_all` of
+the replies still queued and then of the epilogue. -/
+theorem close_start_eq {g : Cfg} {r : AReq} {t : Transport} (he : REnd g.N r t.input) :
     closePoll r .start g.st 0 none t = closeP4 (closeReq r) none t (.writeOut r.sp.output g.epi) ∧
     CEndW g (closeReq r) t.input := by
-  obtain ⟨G, hinv⟩ := he.inv
-  have hwr := hinv.wr
+  have hwr := he.wr
   have hlock := he.lock
-  have hstrm : r.sp.stream = some 5 := hinv.mt.strm
-  have hreq := hinv.req
-  have hrb : (r.sp.switchTo none).isRecordBoundary = true := by
-    simp [Str.Parser.isRecordBoundary, Str.Parser.switchTo, Str.Parser.discardStream, he.pay, he.pad]
+  have hreq : r.sp.request = g.p.request := he.req
+  have hrb : (spIgnore r.sp).isRecordBoundary = true := by
+    simp [Str.Parser.isRecordBoundary, spIgnore_pay, spIgnore_pad, he.pay, he.pad]
   have h1 : closeP1 r .start none t = .ok (r, none, t, .start) := by
     simp [closeP1, AReq.writeablePoll, hwr]
-  have h2 : closeP2 r none t .start = .ok ({ r with sp := r.sp.switchTo none }, none, t, .start) := by
+  have h2 : closeP2 r none t .start = .ok ({ r with sp := spIgnore r.sp }, none, t, .start) := by
     rw [closeP2_start]
-    simp [spIgnore, hstrm, closeBoundary, hrb, closeP2Tail]
-  have hepi : ∀ l, epilogueOf { sp := r.sp.switchTo none, lock := l, writeable := r.writeable } g.st = g.epi := by
+    simp [closeBoundary, hrb, closeP2Tail]
+  have hepi : ∀ l, epilogueOf { sp := spIgnore r.sp, lock := l, writeable := r.writeable } g.st = g.epi := by
     intro l
     simp only [epilogueOf, hwr, if_true, Cfg.epi, outputStreams]
-    show makeRequestEpilogue r.sp.request.id g.st _ = _
-    rw [hreq]; rfl
+    show makeRequestEpilogue (spIgnore r.sp).request.id g.st _ = _
+    rw [spIgnore_request, hreq]; rfl
   constructor
   · rw [closePoll_eq, h1]
     simp only
     rw [h2]
     simp only
     rw [closeP3_start]
-    simp only [Nat.lt_irrefl, if_false, gt_iff_lt, hlock, lockDrop, hepi]
+    simp only [Nat.lt_irrefl, if_false, gt_iff_lt, hlock, lockDrop, hepi, spIgnore_output]
     rfl
-  · have hs := hinv.sinv
-    refine ⟨he.pay, he.pad, he.wire, hreq, hinv.capK, hinv.mt.mc, ?_⟩
-    have := hs.1
-    simp only [Str.Parser.freeStart] at this
-    show r.sp.raw.length ≤ g.cap
-    have hc : r.sp.cap = g.cap := hinv.capK
-    omega
+  · exact ⟨by show (spIgnore r.sp).pay = 0; rw [spIgnore_pay]; exact he.pay,
+      by show (spIgnore r.sp).pad = 0; rw [spIgnore_pad]; exact he.pad,
+      by show (spIgnore r.sp).raw ++ t.input = g.U; rw [spIgnore_raw]; exact he.wire,
+      by show (spIgnore r.sp).request = _; rw [spIgnore_request]; exact hreq,
+      by show (spIgnore r.sp).cap = _; rw [spIgnore_cap]; exact he.capK,
+      by show (spIgnore r.sp).maxConns = _; rw [spIgnore_mc]; exact he.mcK,
+      by show (spIgnore r.sp).raw.length ≤ _; rw [spIgnore_raw]; exact he.rawlen⟩
 
 /-! ## The handler phase -/
 
 theorem handlerFuel_ge (e : Run.Env) : 1000 + 4 * e.tr.input.length ≤ handlerFuel e := by
   unfold handlerFuel; omega
 
+theorem HOut.mono {W : WCtx} {Rd Rd' : AReq → HState → Run.Env → Prop} {e : Run.Env}
+    {out : AReq × HState × Run.Env × HRes} (h : HOut W Rd e out) (hm : ∀ r h e, Rd r h e → Rd' r h e) :
+    HOut W Rd' e out := by
+  obtain ⟨a, b, c⟩ := h
+  refine ⟨a, b, ?_⟩
+  rcases c with ⟨c1, c2, c3, c4⟩ | c
+  · exact Or.inl ⟨c1, c2, c3, c4.imp (hm _ _ _) id⟩
+  · exact Or.inr c
+
+/-- One poll of the handler suspended in (or starting) one of its reads, for both roles that read. -/
+theorem rd_poll {g : Cfg} (ok : g.OK) {r : AReq} {h : HState} {e : Run.Env} (hr : g.Rd r h e) (hb : Ben e.tr)
+    {fuel : Nat} (hfu : 1000 + 4 * e.tr.input.length ≤ fuel) :
+    HOut g.Wc g.Rd e (handlerPoll fuel r h e) := by
+  cases ok.shape with
+  | responder hr1 hb1 hf hp hX2 hX hU hOt hrv hs hfu0 =>
+    rcases hr with ⟨_, hr⟩ | ⟨h3, _⟩
+    · have hK := kok ok hb1 hf hp [] (fun r hr => by cases hr) (fun r hr => by cases hr) (by rw [hX2]; rfl) (by rw [hX, hX2, List.append_nil])
+      have hfinal : g.K.final = true := by simp [RCtx.final, Cfg.K, hr1, nextInputStream, RT.stdin]
+      have hN : g.Wc.N = g.K.ectx := by simp [Cfg.Wc, Cfg.N, RCtx.ectx, Cfg.K, hU, hX2]
+      refine (read_phase (W := g.Wc) hK hfinal hN hOt hrv hr hb ?_).mono (fun r h e hh => Or.inl ⟨hr1, hh⟩)
+      show alignedBufsize g.b / 32 + 3 * e.tr.input.length + wcost g.data.length + 12 ≤ fuel
+      omega
+    · omega
+  | authorizer hr2 hX hU hOt hrv hs hfu0 => rcases hr with ⟨h1, _⟩ | ⟨h3, _⟩ <;> omega
+  | filter hr3 hb1 hb2 hf hf2 hp hp2 hX2 hX hU hOt hrv hs hfu0 =>
+    rcases hr with ⟨h1, _⟩ | ⟨_, hr⟩
+    · omega
+    · obtain ⟨hK1, hK2, hfo⟩ := kokF ok hr3 hb1 hb2 hf hf2 hp hp2 hX2 hX
+      have hN : g.Wc.N = g.K2.ectx := by simp [Cfg.Wc, Cfg.N, RCtx.ectx, Cfg.K2, hU]
+      refine (read_phaseF (W := g.Wc) hK1 hK2 hfo hN hOt hrv hr hb ?_).mono (fun r h e hh => Or.inr ⟨hr3, hh⟩)
+      show alignedBufsize g.b / 16 + 3 * e.tr.input.length + wcost g.data.length + 24 ≤ fuel
+      omega
+
 /-- One poll that starts inside the handler (given what this poll of the handler returns). -/
 theorem handler_core {g : Cfg} (ok : g.OK) {c : Conn} {r : AReq} {h : HState} (hph : c.phase = .handler r h)
-    (hout : HOut g.K g.data g.st g.L1 c.env (handlerPoll (handlerFuel c.env) r h c.env))
+    (hout : HOut g.Wc g.Rd c.env (handlerPoll (handlerFuel c.env) r h c.env))
     (hb : Ben c.env.tr) (hstop : c.stop = false) (hev : Ev1 g c.env.tr) (hsc : c.scripts = g.more) :
     Res g (2 * c.env.tr.input.length + 10) c := by
   have hstep := C07.handler_step c r h hph
@@ -660,14 +798,16 @@ theorem handler_core {g : Cfg} (ok : g.OK) {c : Conn} {r : AReq} {h : HState} (h
   rw [hhp] at hstep hout
   obtain ⟨hts, hsegs, hres⟩ := hout
   simp only at hts hsegs hres
-  rcases hres with ⟨rfl, hwk, hans, hst⟩ | ⟨rfl, O1, hd⟩
+  rcases hres with ⟨rfl, hwk, hans, hst⟩ | ⟨hres, O1, hd⟩
   · have hstep' : stepConn c = .halt ⟨.handler r' h', e', c.scripts, c.stop⟩ .pending := hstep
     refine ⟨⟨.handler r' h', e', c.scripts, c.stop⟩, .pending, (Halts.now hstep').mono (by omega),
       ⟨hts.w, hsegs, rfl⟩, .pend ?_ hwk hans⟩
     rcases hst with hst | ⟨O1, hst⟩
     · exact .hread rfl hst (hb.step hts) hstop (hev.step hts) hsc
     · exact .hwrite rfl hst (hb.step hts) hstop (hev.step hts) hsc
-  · have halive : (h'.writers.filter Option.isSome).length = 0 := by rw [hd.ws]; rfl
+  · have hres' : res = .done (.ok g.st) := hres
+    subst hres'
+    have halive : (h'.writers.filter Option.isSome).length = 0 := by rw [hd.ws]; rfl
     simp only [halive] at hstep
     have hstep' : stepConn c =
         .next ⟨.closing r' .start g.st 0, e'.ev s!"HE(ok:{showStatus g.st})", c.scripts, c.stop⟩ := hstep
@@ -684,8 +824,9 @@ theorem handler_core {g : Cfg} (ok : g.OK) {c : Conn} {r : AReq} {h : HState} (h
       (by show (e'.tr.ev _).wlog ++ r'.sp.output ++ g.epi = g.L3 O1 r'.sp.output
           rw [Transport.ev_wlog, hd.log]; rfl)
       (hb.step hts2) hstop (hev.step hts2)
-      (by show rEvent g.content ∈ e'.tr.events ++ [_]
-          exact List.mem_append_left _ hd.ev) hsc
+      (by intro s hs
+          show s ∈ e'.tr.events ++ [_]
+          exact List.mem_append_left _ (hd.ev s hs)) hsc
     have := Res.of_steps (Steps.one hstep') ⟨hts2.w, hsegs, rfl⟩ hcore
     refine this.mono ?_
     have hl := hts.tle.input_len
@@ -697,9 +838,7 @@ theorem handler_core {g : Cfg} (ok : g.OK) {c : Conn} {r : AReq} {h : HState} (h
 /-- **The handler start** (end of stage 1).  `parse_request` has consumed `F1`, its request parser is
 `done`, and the final `write_all` of its replies completes: then `F1` is the whole preamble plus the
 read-ahead `e1`, the write log is exactly the owed preamble replies, and the next phase transition
-starts the handler on `Request::new(stream parser for exactly the request sent, holding e1)`, whose
-input (buffer ++ transport) is exactly the wire after the preamble (`RInv` with nothing delivered and
-nothing generated yet). -/
+starts the handler on `Request::new(stream parser for exactly the request sent, holding e1)`. -/
 theorem handler_start {g : Cfg} (ok : g.OK) {c1 : Conn} {F1 rest : Bytes} {t' : Transport}
     (hph : c1.phase = .parseReq (track g.cap g.mc F1) (.writing rest true))
     (hw : F1 ++ c1.env.tr.input = g.W) (hstop1 : c1.stop = false)
@@ -707,12 +846,11 @@ theorem handler_start {g : Cfg} (ok : g.OK) {c1 : Conn} {F1 rest : Bytes} {t' : 
     (hf : (run .header F1 g.mc).st.isFinal = true)
     (hwa : writeAllLoop (rest.length + 1) rest c1.env.tr = ([], t', .ready))
     (hlog : t'.wlog = g.L0 ++ (run .header F1 g.mc).out)
-    (hsc1 : c1.scripts = (script g.data g.st, true) :: g.more) :
-    ∃ e1, F1 = serAll g.recs ++ e1 ∧ e1 ++ c1.env.tr.input = g.X ∧ t'.wlog = g.L1 ∧
-      RInv g.K (AReq.new (Str.Parser.fromParser g.cap g.p.request e1 g.mc)) e1 c1.env.tr.input [] [] ∧
+    (hsc1 : c1.scripts = (g.hscript, true) :: g.more) :
+    ∃ e1, F1 = serAll g.recs ++ e1 ∧ e1 ++ c1.env.tr.input = g.X ∧ t'.wlog = g.L1 ∧ e1.length ≤ g.cap ∧
       stepConn c1 = .next
         ⟨.handler (AReq.new (Str.Parser.fromParser g.cap g.p.request e1 g.mc))
-            { ops := script g.data g.st, propagate := true },
+            { ops := g.hscript, propagate := true },
           (⟨t', c1.env.mutex, c1.env.segs⟩ : Run.Env).ev (hsEvent g.p.request), g.more, false⟩ := by
   have hF1 : F1 <+: serAll g.recs ++ g.X := ⟨c1.env.tr.input, by simpa [Cfg.W] using hw⟩
   rcases C06.run_wire_state ok.wf g.X hF1 g.mc with ⟨e1, hFe, he1, hrun⟩ | ⟨t, _, _, hnf⟩
@@ -731,22 +869,56 @@ theorem handler_start {g : Cfg} (ok : g.OK) {c1 : Conn} {F1 rest : Bytes} {t' : 
       exact List.append_cancel_left this
     have he1len : e1.length ≤ g.cap := by
       have := hrem1; rw [hrun] at this; exact this
-    have hidlt := (pid_lt ok).2
-    have hstart : C03SI.Start g.K.E (Str.Parser.fromParser g.cap g.p.request e1 g.mc) := by
-      have := C03SI.start_fresh g.cap g.p.request e1 g.mc he1len hidlt (Or.inl ok.role)
-      have hrole : g.p.request.role = 1 := ok.role
-      rw [hrole] at this
-      exact this
-    refine ⟨e1, hFe, hwire, by rw [hlog, hrun]; rfl,
-      ⟨hstart.mtch, hstart.inv, rfl, rfl, rfl, ?_, hwire, fun x => ?_⟩, hstep⟩
-    · simp [AReq.new, Str.Parser.fromParser, Preamble.request, ok.role, inputStreams]
-    · have := C03SI.rem_start hstart x
-      show refWire g.K.E (e1 ++ x) = (Rem g.K.E (Str.Parser.fromParser g.cap g.p.request e1 g.mc) x).pre [] []
-      rw [this]; rfl
+    exact ⟨e1, hFe, hwire, by rw [hlog, hrun]; rfl, he1len, hstep⟩
   · rw [hf] at hnf; cases hnf
 
+/-- the request at the handler start, for the roles with input streams: nothing delivered, nothing
+generated, buffer ++ transport = the wire after the preamble -/
+theorem rinv_start {g : Cfg} (ok : g.OK) (hrole : g.p.role = 1 ∨ g.p.role = 3) {e1 input : Bytes}
+    (hlen : e1.length ≤ g.cap) (hwire : e1 ++ input = g.X) :
+    RInv g.K (AReq.new (Str.Parser.fromParser g.cap g.p.request e1 g.mc)) e1 input [] [] := by
+  have hstart : C03SI.Start g.K.E (Str.Parser.fromParser g.cap g.p.request e1 g.mc) :=
+    C03SI.start_fresh g.cap g.p.request e1 g.mc hlen (pid_lt ok).2 hrole
+  refine ⟨hstart.mtch, hstart.inv, rfl, rfl, rfl, hwire, fun x => ?_⟩
+  have := C03SI.rem_start hstart x
+  show refWire g.K.E (e1 ++ x) = (Rem g.K.E (Str.Parser.fromParser g.cap g.p.request e1 g.mc) x).pre [] []
+  rw [this]; rfl
+
+/-- the first poll of the handler, by role -/
+theorem first_poll {g : Cfg} (ok : g.OK) {e1 : Bytes} {e : Run.Env} (hlen : e1.length ≤ g.cap)
+    (hwire : e1 ++ e.tr.input = g.X) (hlog : e.tr.wlog = g.L1) (hm : e.mutex = none) (hb : Ben e.tr)
+    {fuel : Nat} (hfu : 1000 + 4 * e.tr.input.length ≤ fuel) :
+    HOut g.Wc g.Rd e (handlerPoll fuel (AReq.new (Str.Parser.fromParser g.cap g.p.request e1 g.mc))
+      { ops := g.hscript, propagate := true } e) := by
+  have hrst : g.p.role = 1 ∨ g.p.role = 3 →
+      RSt g.K g.L1 [] (AReq.new (Str.Parser.fromParser g.cap g.p.request e1 g.mc)) e.mutex e.tr [] [] := by
+    intro hrole
+    refine ⟨⟨e1, rinv_start ok hrole hlen hwire⟩, ?_, Or.inl hm, ⟨[], by rw [hlog, List.append_nil], rfl⟩⟩
+    rw [hm]; exact lockInv_free rfl
+  cases ok.shape with
+  | responder hr1 hb1 hf hp hX2 hX hU hOt hrv hs hfu0 =>
+    rw [hs]
+    exact rd_poll ok (Or.inl ⟨hr1, rfl, rfl, rfl, [], hrst (Or.inl hr1)⟩) hb hfu
+  | authorizer hr2 hX hU hOt hrv hs hfu0 =>
+    rw [hs]
+    have he1 : e1 = [] ∧ e.tr.input = [] := by
+      rw [hX] at hwire; exact List.append_eq_nil_iff.1 hwire
+    refine open_phase (W := g.Wc) (O1 := []) ?_ hm (by rw [hlog]; exact (List.append_nil _).symm)
+      (by show [] ++ [] = g.Ot; rw [hOt]; rfl) (by intro s hs; rw [show g.Wc.revs = g.revs from rfl, hrv] at hs; cases hs) hb
+      (by show wcost g.data.length + 4 ≤ fuel; omega)
+    refine ⟨by simp [AReq.new, Str.Parser.fromParser, Preamble.request, hr2, inputStreams], rfl, rfl, rfl, ?_,
+      rfl, rfl, rfl, hlen, Str.SInv_fromParser g.cap g.p.request e1 g.mc hlen (pid_lt ok).2⟩
+    show e1 ++ e.tr.input = g.U
+    rw [hU, he1.1, he1.2]; rfl
+  | filter hr3 hb1 hb2 hf hf2 hp hp2 hX2 hX hU hOt hrv hs hfu0 =>
+    rw [hs]
+    have hrd : HRead g.K (.setStream 8 :: .readAll :: oscript g.data g.st) g.L1 []
+        (AReq.new (Str.Parser.fromParser g.cap g.p.request e1 g.mc))
+        { ops := fscript g.data g.st, propagate := true } e := ⟨rfl, rfl, rfl, [], hrst (Or.inr hr3)⟩
+    exact rd_poll ok (Or.inr ⟨hr3, Or.inl hrd⟩) hb hfu
+
 theorem parse_poll {g : Cfg} (ok : g.OK) {c : Conn} {F : Bytes}
-    (hst : PSt g.cap g.mc g.W g.L0 [] c F) (hsc : c.scripts = (script g.data g.st, true) :: g.more)
+    (hst : PSt g.cap g.mc g.W g.L0 [] c F) (hsc : c.scripts = (g.hscript, true) :: g.more)
     (hm : c.env.mutex = none) (hev : hsCount c.env.tr.events = g.hs0) :
     Res g (4 * c.env.tr.input.length + 16) c := by
   obtain ⟨n, c1, F1, hn, hs, hfr, hout⟩ := parse_loop (cap24 g) (ns ok) _ c F hst (Nat.le_refl _)
@@ -758,8 +930,9 @@ theorem parse_poll {g : Cfg} (ok : g.OK) {c : Conn} {F : Bytes}
     exact .pend (.parse h2 (h3.scripts.trans (hfr.scripts.trans hsc)) (h3.mutex.trans (hfr.mutex.trans hm))
       (hts.hs.trans hev)) h4 (by have := hfr.ts.ans_le; omega)
   · -- the preamble is complete and its replies are written: the handler starts
-    have hsc1 : c1.scripts = (script g.data g.st, true) :: g.more := hfr.scripts.trans hsc
-    obtain ⟨e1, _, _, hL1, hrinv, hstep'⟩ := handler_start ok hph (by simpa using hw) hstop1 hrem1 hf hwa hlog hsc1
+    have hsc1 : c1.scripts = (g.hscript, true) :: g.more := hfr.scripts.trans hsc
+    obtain ⟨e1, _, hwire, hL1, he1len, hstep'⟩ :=
+      handler_start ok hph (by simpa using hw) hstop1 hrem1 hf hwa hlog hsc1
     have hmx1 : c1.env.mutex = none := hfr.mutex.trans hm
     have hwsE : WStep c1.env.tr (t'.ev (hsEvent g.p.request)) :=
       hts'.w.trans ⟨List.suffix_refl _, List.suffix_refl _, rfl, rfl, Or.inl rfl, Nat.le_refl _,
@@ -771,29 +944,17 @@ theorem parse_poll {g : Cfg} (ok : g.OK) {c : Conn} {F : Bytes}
         rw [hsCount_append, h0, hsCount_single_true (isHS_hsEvent _)]
       · show hsEvent g.p.request ∈ t'.events ++ [hsEvent g.p.request]
         simp
-    have hread : HRead g.K g.data g.st g.L1
-        (AReq.new (Str.Parser.fromParser g.cap g.p.request e1 g.mc))
-        { ops := script g.data g.st, propagate := true }
-        ((⟨t', c1.env.mutex, c1.env.segs⟩ : Run.Env).ev (hsEvent g.p.request)) :=
-      ⟨rfl, rfl, rfl, [], ⟨⟨e1, by
-          show RInv g.K _ e1 t'.input [] []
-          rw [hinp']; exact hrinv⟩, by
-          show LockInv _ c1.env.mutex
-          rw [hmx1]; exact lockInv_free rfl, Or.inl hmx1, ⟨[], by
-            show t'.wlog = g.L1 ++ []
-            rw [hL1, List.append_nil], rfl⟩⟩⟩
     have hben2 : Ben (t'.ev (hsEvent g.p.request)) := hben1.wstep hwsE
-    have hfuelH : g.K.cap / 32 + 3 * t'.input.length + wcost g.data.length + 12 ≤
+    have hfuelH : 1000 + 4 * t'.input.length ≤
         handlerFuel ((⟨t', c1.env.mutex, c1.env.segs⟩ : Run.Env).ev (hsEvent g.p.request)) := by
-      have h2 := ok.hfuel
-      show alignedBufsize g.b / 32 + 3 * t'.input.length + wcost g.data.length + 12 ≤
-        1000 + t'.input.length * 4 + _
+      show 1000 + 4 * t'.input.length ≤ 1000 + t'.input.length * 4 + _
       omega
     have hcore := handler_core ok
       (c := ⟨.handler (AReq.new (Str.Parser.fromParser g.cap g.p.request e1 g.mc))
-              { ops := script g.data g.st, propagate := true },
+              { ops := g.hscript, propagate := true },
           (⟨t', c1.env.mutex, c1.env.segs⟩ : Run.Env).ev (hsEvent g.p.request), g.more, false⟩) rfl
-      (read_phase (kok ok) hread hben2 hfuelH) hben2 rfl hev1 rfl
+      (first_poll ok (e := (⟨t', c1.env.mutex, c1.env.segs⟩ : Run.Env).ev (hsEvent g.p.request)) he1len
+        (by show e1 ++ t'.input = g.X; rw [hinp']; exact hwire) hL1 hmx1 hben2 hfuelH) hben2 rfl hev1 rfl
     have hres := Res.of_steps (hs.trans (Steps.one hstep')) (hfr.link.trans ⟨hwsE, rfl, hstop1.symm ▸ rfl⟩) hcore
     refine hres.mono ?_
     have h1 := hfr.ts.tle.input_len
@@ -818,7 +979,7 @@ theorem start_poll {g : Cfg} (ok : g.OK) {c : Conn} {raw : Bytes}
     (hph : c.phase = .parseReq ⟨g.cap, raw, .header, g.mc⟩ .start)
     (hwire : raw ++ c.env.tr.input = g.W) (hraw : raw.length ≤ g.cap) (hlog : c.env.tr.wlog = g.L0)
     (hb : Ben c.env.tr) (hstop : c.stop = false)
-    (hsc : c.scripts = (script g.data g.st, true) :: g.more) (hm : c.env.mutex = none)
+    (hsc : c.scripts = (g.hscript, true) :: g.more) (hm : c.env.mutex = none)
     (hev : hsCount c.env.tr.events = g.hs0) : Res g (4 * c.env.tr.input.length + 17) c := by
   have hpre : raw <+: g.W := ⟨c.env.tr.input, hwire⟩
   have hstart := start_track (cap24 g) hraw (ns ok _ hpre)
